@@ -101,3 +101,38 @@ def rules(t, *a, **kw):
     out = _rules_C02_w7b(t, *a, **kw)
     out.append(W7.no_silent_drop(t, "C02.l"))
     return out
+
+
+def every_store_recorded(t, rid):
+    """RECORD-ON-STORE: on an unordered channel `received_messages` is the only memory of what was already handed to the application (the entry
+    leaves `messages` when it is obtained), so *every* place that puts a message into `messages` - in whatever function - either lies in code that
+    only runs for the Ordered mode (an arm of the match on reliable_order) or records the id in received_messages on the same path."""
+    r = RuleResult(rid, "every insertion into ReceiveChannelReliable.messages outside an Ordered-only arm records the id in received_messages (whatever function stores it)", floor=0)
+    names = t.variants_of("channel::reliable::ReliableOrder")
+    for f0 in t.fns(r"ReceiveChannelReliable::[a-z_]+$"):
+        for f in fn_and_closures(t, f0):
+            ordered_only = set()
+            for br in t.branches(f):
+                if br["kind"] == "discr" and fmt(br["on"]).endswith("reliable_order"):
+                    o_t = [tgt for v, tgt in br["targets"].items() if names.get(v) == "Ordered"] + ([br["otherwise"]] if "Ordered" not in [names.get(v) for v in br["targets"]] and br.get("otherwise") is not None else [])
+                    u_t = [tgt for v, tgt in br["targets"].items() if names.get(v) == "Unordered"] + ([br["otherwise"]] if "Unordered" not in [names.get(v) for v in br["targets"]] and br.get("otherwise") is not None else [])
+                    u_t = [x for x in u_t if x not in o_t or len(br["targets"]) == 0]
+                    if o_t: ordered_only |= f.reachable_from(o_t) - (f.reachable_from(u_t) if u_t else set())
+            ins = [g for g in t.effects("messages", {"insert"}, f) if "VacantEntry" not in callee_name(g.node)] + list(t.calls(r"VacantEntry.*::insert$", f))
+            ins = [g for g in ins if "messages" in fmt(t.arg(g, 0)) and "received_messages" not in fmt(t.arg(g, 0)) and "unacked" not in fmt(t.arg(g, 0))]
+            rec = list(t.effects("received_messages", {"insert"}, f)) + list(t.calls(r"BTreeSet.*::insert$", f))     # the id set is the only BTreeSet of the channel (it may be reached through a value: `Some(received_messages)`)
+            for g in ins:
+                if g.bb in ordered_only: continue
+                r.site(g)
+                # (the record may be conditional on a value that is correlated with the mode - `if let Some(set) = accepted_ids { set.insert(id) }` -
+                #  so a record on a path through the store is accepted; C02.a states the exact pairing for process_message)
+                ok = any((g.bb in f.reachable_from([x.bb]) or x.bb in f.reachable_from([g.bb])) for x in rec)
+                if not ok: r.bad(f"{short(f0.path)}|unrecorded", g, "a message is put into `messages` on a path that also runs for an Unordered channel without its id being recorded in received_messages: once the application has obtained it, a late duplicate (all its slices resent because the acks were lost) is accepted and obtained a second time")
+    return r
+
+
+_rules_C02_w8 = rules
+def rules(t, *a, **kw):
+    out = _rules_C02_w8(t, *a, **kw)
+    out.append(every_store_recorded(t, "C02.n"))
+    return out
